@@ -123,16 +123,18 @@ fn c16_digits() {
         }
     }
     assert!(n <= 10, "C16: more than ten digits");
-    let mut v: u64 = 0;
+    // decimal expansion, stated recursively: the last digit is pin % 10, the digits before it are the
+    // expansion of pin / 10; the expansion of 0 is empty
+    let mut q = pin;
     let mut i = 0;
     while i < 10 {
         if i < n {
-            assert!(digits[i] <= 9, "C16: digit out of range");
-            v = v * 10 + digits[i] as u64;
+            assert!(digits[n - 1 - i] as u32 == q % 10, "C16: digits are not the decimal expansion of the PIN");
+            q /= 10;
         }
         i += 1;
     }
-    assert!(v == pin as u64, "C16: digits are not the decimal expansion of the PIN");
+    assert!(q == 0, "C16: the PIN has more digits than were extracted");
     assert!(n == 0 || digits[0] != 0, "C16: leading zero digit");
     assert!((n == 0) == (pin == 0), "C16: digit count of zero");
     kani::cover!(n == 10, "ten digits");
@@ -152,24 +154,55 @@ fn eq20(a: &[u8; 20], b: &[u8; 20]) -> bool {
     eq
 }
 
+// ---- uninterpreted stubs of the two leaves (their own lemmas: c16_remap_*, c16_digits) ----
+fn stub_grid(seed: u32) -> [u8; 10] {
+    verif_oracle::bump(0);
+    let o = verif_oracle::uf(verif_oracle::USER + 70, &[&seed.to_le_bytes()]);
+    let mut g = [0u8; 10];
+    let mut i = 0;
+    while i < 10 {
+        g[i] = o[i];
+        i += 1;
+    }
+    kani::assume(is_perm(&g)); // c16_remap_perm
+    g
+}
+
+fn stub_digits<'a>(pin: u32, out: &'a mut [u8; 10]) -> &'a mut [u8] {
+    verif_oracle::bump(1);
+    let o = verif_oracle::uf(verif_oracle::USER + 71, &[&pin.to_le_bytes()]);
+    let n = o[10] as usize;
+    // consequences of c16_digits: at most ten decimal digits, four or more exactly from 1000 on
+    kani::assume(n <= 10 && (n >= 4) == (pin >= 1000) && (n == 0) == (pin == 0));
+    let mut i = 0;
+    while i < 10 {
+        if i < n {
+            kani::assume(o[i] <= 9);
+            out[i] = o[i];
+        }
+        i += 1;
+    }
+    &mut out[0..n]
+}
+
 /// C16: the hash is SHA-1(client salt | SHA-1(server salt | remapped digits as ASCII)); none below 1000.
-/// The layout is taken from `remap_pin_grid` (its own lemma is c16_remap_*), the digits from `pin_to_bytes`
-/// (lemma c16_digits).
+/// The layout and the digits are uninterpreted here (lemmas c16_remap_* and c16_digits).
 #[kani::proof]
 #[kani::unwind(22)]
+#[kani::stub(crate::pin::remap_pin_grid, stub_grid)]
+#[kani::stub(crate::pin::pin_to_bytes, stub_digits)]
 fn c16_hash_msg() {
     let pin: u32 = kani::any();
     let seed: u32 = kani::any();
     let ss: [u8; 16] = kani::any();
     let cs: [u8; 16] = kani::any();
     // specification
-    let grid = remap_pin_grid(seed);
-    kani::assume(is_perm(&grid)); // established for every seed by c16_remap_perm
+    let grid = stub_grid(seed);
     let mut arr = [0u8; 10];
     let mut ascii = [0u8; 10];
     let n;
     {
-        let b = pin_to_bytes(pin, &mut arr);
+        let b = stub_digits(pin, &mut arr);
         n = b.len();
         let mut i = 0;
         while i < 10 {
@@ -190,6 +223,7 @@ fn c16_hash_msg() {
     }
     let has = pin >= 1000;
     let r = calculate_hash(pin, seed, &ss, &cs);
+    assert!(verif_oracle::counter(0) == (if has { 2 } else { 1 }) && verif_oracle::counter(1) == 2, "harness: layout / digit extraction not called as expected");
     match r {
         None => {
             assert!(!has, "C16: no hash for a PIN of four or more digits");
@@ -206,17 +240,36 @@ fn c16_hash_msg() {
     }
 }
 
+fn stub_hash(pin: u32, seed: u32, ss: &[u8; 16], cs: &[u8; 16]) -> Option<[u8; 20]> {
+    verif_oracle::bump(2);
+    let o = verif_oracle::uf(verif_oracle::USER + 72, &[&pin.to_le_bytes(), &seed.to_le_bytes(), ss, cs]);
+    if o[20] & 1 == 0 {
+        None
+    } else {
+        let mut h = [0u8; 20];
+        let mut i = 0;
+        while i < 20 {
+            h[i] = o[i];
+            i += 1;
+        }
+        Some(h)
+    }
+}
+
 /// C16: verification is true exactly when a hash exists and equals the presented one (160 bits).
+/// `calculate_hash` is uninterpreted here (lemma c16_hash_msg).
 #[kani::proof]
 #[kani::unwind(22)]
+#[kani::stub(crate::pin::calculate_hash, stub_hash)]
 fn c16_verify() {
     let pin: u32 = kani::any();
     let seed: u32 = kani::any();
     let ss: [u8; 16] = kani::any();
     let cs: [u8; 16] = kani::any();
     let presented: [u8; 20] = kani::any();
-    let h = calculate_hash(pin, seed, &ss, &cs);
+    let h = stub_hash(pin, seed, &ss, &cs);
     let v = verify_client_pin_hash(pin, seed, &ss, &cs, &presented);
+    assert!(verif_oracle::counter(2) == 2, "harness: calculate_hash not called exactly once");
     match h {
         None => assert!(!v, "C16: verification succeeded although no hash exists"),
         Some(e) => {
